@@ -16,7 +16,7 @@ import (
 
 func init() {
 	Register(&World{Name: "xtime", Episodes: true, TaskStalls: true, Props: []string{"C20"}, Concurrent: true, Timed: true, MaxSteps: 6000, Run: xtimeWorld})
-	ExpectedProbes["xtime"] = []string{"sleep-d-nonpositive", "sleep-deadline-too-soon", "sleep-deadline-far", "sleep-cancelled-midway", "sleep-full", "ticker-jitter-zero", "ticker-jitter-max", "ticker-reset", "ticker-stop-with-callback-pending", "ticker-tick-dropped-or-buffered"}
+	ExpectedProbes["xtime"] = []string{"sleep-d-nonpositive", "sleep-deadline-too-soon", "sleep-deadline-far", "sleep-cancelled-midway", "sleep-full", "ticker-jitter-zero", "ticker-jitter-max", "ticker-reset", "ticker-stop-with-callback-pending", "ticker-tick-dropped-or-buffered", "ticker-stopped-twice"}
 }
 
 func xtimeWorld(r *R) {
@@ -446,6 +446,13 @@ func tickerScenario(r *R) {
 		stopRetAt = sim.Now()
 		stopped = true
 		r.Hist("stop")
+		if r.Choose(3, "stop-again") == 2 {
+			// Stop on a stopped ticker (a deferred Stop after an explicit one) is one more timing of
+			// Stop: nothing to turn off, and nothing to panic about
+			r.Probe("ticker-stopped-twice")
+			safely("Stop", func() { tk.Stop() })
+			r.Hist("stop-again")
+		}
 	})
 	// wait for Stop, then watch the channel for 20 further periods
 	sim.WaitUntil("main-wait-stop", func() bool { return stopped || r.Failed() })
